@@ -19,11 +19,17 @@ sensitivity_term_fails_at_zero sensitivity_real
 '''.split() + [
     # the derivative is served through the cache machine of C07 (control matrix with intermediates,
     # then the cached first-order integral): a stale intermediate is a wrong gradient
-    'FFVerif.C07.cleanup_freq', 'FFVerif.C07.deriv_spec', 'FFVerif.C07.served_value_is_fresh']
-LEAN_MODULES = ['FFVerif.Props.C11', 'FFVerif.Props.C07']
+    'FFVerif.C07.cleanup_freq', 'FFVerif.C07.deriv_spec', 'FFVerif.C07.served_value_is_fresh'] + '''
+exp_line_hasDerivAt_series_matrix dkA_eq_segIntegral divDiffExp_eq_dkA exp_hasDerivAt_eigenbasis_complex
+exp_hasDerivAt_eigenbasis segProp_hasDerivAt_amplitude exp_hasDerivAt_eigenbasis_entry liouvilleAMat_is_A
+liouvilleAMat_sub_A_le segment_propagator_derivative_model segment_propagator_derivative_model_error
+segment_propagator_eq_ratio cumulative_propagator_derivative cumulative_propagator_derivative_model
+exists_isEigh eigh_family_exists liouville_derivative_entry liouville_derivative_get
+liouville_derivative_contraction liouville_derivative_assembly liouville_derivative_of_pulse'''.split()
+LEAN_MODULES = ['FFVerif.Props.C11', 'FFVerif.Props.C11Deriv', 'FFVerif.Props.C07']
 PINS = ['pinGetFFDerivative', 'pinGradControlMatrix', 'pinInfidelityDerivative', 'C11_gradient_source_shape', 'C11_gradient_einsum_shape']
 GEN_SITES = ['cache:cleanup', 'cache:method_bodies', 'const:gradient.masks', 'einsum:gradient_calculate_filter_function_derivative_0',
-             'einsum:gradient_infidelity_derivative_0']
+             'einsum:gradient_infidelity_derivative_0', 'einsum:gradient__liouville_derivative_0']
 COMPONENTS = ['derivative_integral', 'liouville_A', 'ff_derivative', 'infidelity_derivative']
 RULES = ['correspondence: _derivative_integral, A_mat, calculate_filter_function_derivative and the '
          'spectrum integration of infidelity_derivative vs the Lean model at doubles (random, '
